@@ -118,6 +118,32 @@ impl Parts {
         v["header"] = json!({"kid": "k", "disclosures": pool, "kb_jwt": "eyJhbGciOiJub25lIn0.e30."});
         v.to_string()
     }
+    /// The same JSON document with every character of every string written as a \uXXXX escape.
+    pub fn to_json_escaped(&self) -> String {
+        fn esc(s: &str) -> String {
+            let mut o = String::from("\"");
+            for u in s.encode_utf16() {
+                o.push_str(&format!("\\u{u:04x}"));
+            }
+            o.push('"');
+            o
+        }
+        let mut it = self.jwt.splitn(3, '.');
+        let mut t = format!("{{{}:{},{}:{},{}:{},{}:[", esc("protected"), esc(it.next().unwrap_or("")), esc("payload"), esc(it.next().unwrap_or("")), esc("signature"), esc(it.next().unwrap_or("")), esc("disclosures"));
+        t.push_str(&self.disclosures.iter().map(|d| esc(d)).collect::<Vec<_>>().join(","));
+        t.push(']');
+        if let Some(kb) = &self.kb {
+            t.push_str(&format!(",{}:{}", esc("kb_jwt"), esc(kb)));
+        }
+        t.push('}');
+        t
+    }
+    /// The same JSON document pretty-printed, indented as a whole, with leading and trailing whitespace.
+    pub fn to_json_pretty_ws(&self) -> String {
+        let v: Value = serde_json::from_str(&self.to_json_styled(0, false)).unwrap();
+        let pretty = serde_json::to_string_pretty(&v).unwrap();
+        format!("\n\t  {}\r\n ", pretty.replace('\n', "\n    "))
+    }
     pub fn to_json(&self) -> String {
         self.to_json_styled(0, false)
     }
